@@ -39,6 +39,7 @@ char *__real_strcat(char *, const char *); char *__real_strncat(char *, const ch
 char *__real_strtok_r(char *, const char *, char **); char *__real_strsep(char **, const char *);
 char *__real_strtok(char *, const char *); char *__real_strerror(int); int __real_rand(void); void __real_srand(unsigned);
 char *__real_setlocale(int, const char *); char *__real_getenv(const char *);
+int __real_setenv(const char *, const char *, int); int __real_unsetenv(const char *); int __real_putenv(char *); int __real_clearenv(void);
 extern char __start_eavdata[] __attribute__((weak)); extern char __stop_eavdata[] __attribute__((weak));
 extern char __start_eavbss[] __attribute__((weak)); extern char __stop_eavbss[] __attribute__((weak));
 }
@@ -141,9 +142,9 @@ static char g_pseudo[64];
 static std::string describe(uintptr_t a) {
     char b[200];
     if (a >= (uintptr_t)g_pseudo && a < (uintptr_t)g_pseudo + sizeof g_pseudo) {
-        static const char *nm[] = { "strtok", "strerror", "rand/srand", "setlocale" };
+        static const char *nm[] = { "strtok()", "strerror()", "rand()/srand()", "setlocale()", "getenv()/setenv() (the process environment)" };
         size_t k = (size_t)(a - (uintptr_t)g_pseudo);
-        snprintf(b, sizeof b, "the hidden process-global state of libc's %s()", k < 4 ? nm[k] : "?"); return b;
+        snprintf(b, sizeof b, "the hidden process-global state of libc's %s", k < 5 ? nm[k] : "?"); return b;
     }
     if (__start_eavdata && a >= (uintptr_t)__start_eavdata && a < (uintptr_t)__stop_eavdata) { snprintf(b, sizeof b, "libeav static storage (.data +%zu)", (size_t)(a - (uintptr_t)__start_eavdata)); return b; }
     if (__start_eavbss && a >= (uintptr_t)__start_eavbss && a < (uintptr_t)__stop_eavbss) { snprintf(b, sizeof b, "libeav static storage (.bss +%zu)", (size_t)(a - (uintptr_t)__start_eavbss)); return b; }
@@ -591,11 +592,6 @@ char *__wrap_strtok_r(char *s, const char *d, char **sv) {
 }
 char *__wrap_strsep(char **sp, const char *d) { if (sp && *sp) on_range(*sp, __real_strlen(*sp) + 1, true, PC); return __real_strsep(sp, d); }
 
-// libc interfaces with hidden process-global state: a call is a write to that state
-char *__wrap_strtok(char *s, const char *d) { on_pseudo_write(0, PC); return __real_strtok(s, d); }
-char *__wrap_strerror(int e) { on_pseudo_write(1, PC); return __real_strerror(e); }
-int __wrap_rand(void) { on_pseudo_write(2, PC); return __real_rand(); }
-void __wrap_srand(unsigned s) { on_pseudo_write(2, PC); __real_srand(s); }
 // setlocale(cat, NULL) only queries the process locale (a read of the hidden state); anything else replaces it (a write)
 static void on_pseudo_read(int slot, uintptr_t pc_abs) {
     if (!active()) return;
@@ -605,8 +601,18 @@ static void on_pseudo_read(int slot, uintptr_t pc_abs) {
     sched_point(); ev_hash(pc);
     check_byte(t_tid, (uintptr_t)&g_pseudo[slot], false, pc);
 }
+// libc interfaces with hidden process-global state: a call is a write to that state
+char *__wrap_strtok(char *s, const char *d) { on_pseudo_write(0, PC); return __real_strtok(s, d); }
+char *__wrap_strerror(int e) { on_pseudo_write(1, PC); return __real_strerror(e); }
+int __wrap_rand(void) { on_pseudo_write(2, PC); return __real_rand(); }
+void __wrap_srand(unsigned s) { on_pseudo_write(2, PC); __real_srand(s); }
 char *__wrap_setlocale(int c, const char *l) { if (l) on_pseudo_write(3, PC); else on_pseudo_read(3, PC); return __real_setlocale(c, l); }
-char *__wrap_getenv(const char *n) { on_plain_point(PC); return __real_getenv(n); }
+// the process environment: getenv reads it, setenv/putenv/unsetenv/clearenv rewrite it (MT-Unsafe against getenv)
+char *__wrap_getenv(const char *n) { on_pseudo_read(4, PC); return __real_getenv(n); }
+int __wrap_setenv(const char *n, const char *v, int o) { on_pseudo_write(4, PC); return __real_setenv(n, v, o); }
+int __wrap_unsetenv(const char *n) { on_pseudo_write(4, PC); return __real_unsetenv(n); }
+int __wrap_putenv(char *s) { on_pseudo_write(4, PC); return __real_putenv(s); }
+int __wrap_clearenv(void) { on_pseudo_write(4, PC); return __real_clearenv(); }
 
 // abort / assert inside a simulated thread: stop that thread, keep the simulation alive
 void __wrap_abort(void) {
